@@ -107,6 +107,16 @@ CLAIMED['C08'] = dict(
          'datastores; values and error classes compared pairwise, observed error pairs checked against the transport model in coqc.'),
    note=BASE_TB + ' Loopback gRPC; transport faults, TLS and message-size limits are not covered. The servicer model itself is tied under C01.',
    technique='Rocq proof over a translator-generated status table + three-deployment differential replay', design='5/C08')
+CLAIMED['C09'] = dict(
+   text=('Theorems (closed under the global context): ParameterConfig trees of any nesting depth (four kinds, falsy defaults, external '
+         'types, single/multiple parent values) satisfy from_proto (to_proto p) = p for every well-formed p (C09_parameter_config_roundtrip, '
+         'nested induction); enum tables for scale / external type / study state / trial status round-trip (tables regenerated from the '
+         'source by the translator); Measurement: metrics and steps exact, elapsed seconds within one nanosecond in exact arithmetic. '
+         'REFUTED: UNIFORM_DISCRETE scale is not transmitted (known finding). Trial, TrialSuggestion, MetadataDelta, Suggest/EarlyStop '
+         'request+decision and StudyConfig converters are NOT modelled: they are decided by round-trip monitors on the real converters '
+         '(partial). Four real defects found and repaired (fix: commits); known findings: metric order in StudyConfig, UNIFORM_DISCRETE.'),
+   note=BASE_TB + ' Exact rational arithmetic stands for IEEE doubles (bit-exact agreement is checked on dyadic inputs only); MetricInformation min/max values, fractional step counts and empty descriptions are not round-tripped by the code and are outside the generator.',
+   technique='Rocq proof (nested structural induction; translator-generated enum tables) + vm_compute correspondence + round-trip monitors', design='5/C09')
 ALL = ['C%02d' % i for i in range(1, 21)]
 m = {
  'version': 1,
